@@ -130,6 +130,20 @@ def jointUniqueErrors (T : ScopeTable) (d : Depth) (S : Schema) (D : Frame) : Li
          cells := (cols.map (fun c => cellsAt (some c.name) c.vals dupPos)).flatten }]
   else []
 
+/-- the rows of a frame over the present columns of one uniqueness group -/
+def groupRows (g : List String) (D : Frame) : List (List Val) :=
+  rowsOf D.nrows (((g.filter D.hasCol).filterMap D.col?).map (·.vals))
+
+/-- `check_column_values_are_unique` with **several** groups (`unique=[["a","b"],["c"]]`): the groups
+are examined in declaration order, a group none of whose columns is present constrains nothing, and
+every group with repeated rows is reported (present columns of the group, offending positions); the
+eager handler raises the first -/
+def dupGroups (keep : Keep) (groups : List (List String)) (D : Frame) : List (List String × List Nat) :=
+  groups.filterMap (fun g =>
+    if (g.filter D.hasCol).isEmpty then none else
+      let dup := truePositions (dupRowMask keep (groupRows g D))
+      if dup.isEmpty then none else some (g.filter D.hasCol, dup))
+
 /-- `ColumnBackend.validate` for one column spec, as called from
 `run_schema_component_checks` -/
 def columnErrors (T : ScopeTable) (d : Depth) (spec : ColSpec) (D : Frame) : List Err :=
